@@ -114,8 +114,10 @@ def prune(keep=6):
     cur = src_key()
     ds = [d for d in os.listdir(CACHE) if re.fullmatch(r'[0-9a-f]{16}', d)]
     ds.sort(key=lambda d: os.path.getmtime(os.path.join(CACHE, d)), reverse=True)
+    import time
     for d in ds[keep:]:
-        if d != cur:
+        # (a key used within the last two hours may belong to a check that is still running elsewhere)
+        if d != cur and time.time() - os.path.getmtime(os.path.join(CACHE, d)) > 7200:
             shutil.rmtree(os.path.join(CACHE, d), ignore_errors=True)
 
 
